@@ -58,7 +58,7 @@ RemainderLen(c) == L(c) \div (c.fold ^ FriLayers(c))
 \* one per constraint (resp. per column) with linear batching, a single one otherwise
 AuxWidth(c) == IF HasAux(c) THEN c.aux[1].width ELSE 0
 NumConstraintCoeffDraws(c) ==
-  IF c.cbatch = 0 THEN c.width + AuxWidth(c) + Len(c.asserts) + AuxWidth(c) ELSE 1
+  IF c.cbatch = 0 THEN Len(c.extra) + c.width + AuxWidth(c) + Len(c.asserts) + AuxWidth(c) ELSE 1
 NumDeepCoeffDraws(c) ==
   IF c.dbatch = 0 THEN c.width + AuxWidth(c) + CompositionColumns(c) ELSE 1
 
@@ -111,7 +111,7 @@ PColumns(c) == {j - 1 : j \in {k \in 1..c.width : c.shapes[k] = "pcol"}}
 (***************************************************************************)
 Empty == [field |-> "f64", hash |-> "blake3_256", ext |-> 1, log_len |-> 3, width |-> 1,
           shapes |-> <<"id">>, pcyc |-> <<>>, init |-> <<1>>, exemptions |-> 1, asserts |-> <<>>,
-          aux |-> <<>>, meta |-> <<>>, blowup |-> 2, fold |-> 2, rem |-> 0, queries |-> 1, grind |-> 0,
+          aux |-> <<>>, meta |-> <<>>, extra |-> <<>>, blowup |-> 2, fold |-> 2, rem |-> 0, queries |-> 1, grind |-> 0,
           cbatch |-> 0, dbatch |-> 0, parts |-> 1, hash_rate |-> 1, garbage |-> 0]
 
 Init == cfg = Empty /\ phase = "field"
@@ -129,7 +129,11 @@ ChooseLen == /\ phase = "len"
                   /\ cfg' = [cfg EXCEPT !.log_len = n]
              /\ phase' = "width"
 ChooseWidth == /\ phase = "width"
-               /\ \E w \in 1..MaxWidth : cfg' = [cfg EXCEPT !.width = w, !.shapes = [j \in 1..w |-> "id"]]
+               \* some AIRs state the constraint of 1-2 columns once more, ahead of the others (AirFamily: extra)
+               /\ \E w \in 1..MaxWidth, ne \in {0, 0, 1, 2} :
+                    \E x1 \in {RandomElement(0..(w - 1))}, x2 \in {RandomElement(0..(w - 1))} :
+                      cfg' = [cfg EXCEPT !.width = w, !.shapes = [j \in 1..w |-> "id"],
+                                         !.extra = CASE ne = 0 -> <<>> [] ne = 1 -> <<x1>> [] ne = 2 -> <<x1, x2>>]
                /\ phase' = "shapes"
 \* one shape per column, chosen column by column (phase "shapes" repeats `width` times using garbage as a counter)
 ChooseShape == /\ phase = "shapes"
